@@ -793,7 +793,8 @@ def rule_G7(prog, fixture=False):
             alternatives, nonlinear, more_incomplete, relevant = _gather(ctx, f, node, base_cons, set(e.atoms()) | {satom},
                                                                          size_cache, skip_size_of=(satom if key[3] == "local" else None))
             incomplete += more_incomplete
-            if key[3] in ("parm", "field") and not any(satom in c.atoms() for alt in alternatives for c in (alt + base_cons) if c is not size):
+            if key[3] in ("parm", "field") and satom not in e.atoms() and \
+                    not any(satom in c.atoms() for alt in alternatives for c in (alt + base_cons) if c is not size):
                 res.add(okey, UNMODELLED, where, what, "no live check ties the size of %s'%s' to anything at this point" % (
                     "the member " if key[3] == "field" else "", nm), func=f.name, extra=extra)
                 continue
@@ -860,6 +861,39 @@ def _params_attainable(prog, f, ctx, env, node):
     pnames = {p["n"] for p in f.params}
     patoms = [a for a in env if a.startswith("p:") and a[2:] in pnames]
     szatoms = [a for a in env if a.startswith("sz:") and ctx.size_keys.get(a) and ctx.size_keys[a][3] == "parm"]
+    if szatoms and not patoms:
+        # container parameters of an internal function: every call site hands on a parameter of a public function, or *this of a
+        # public class, and establishes nothing about its size
+        ch0 = Chain(prog, literal, _is_internal, canon)
+        sites = ch0.call_sites(f)
+        if not sites:
+            return (False, "")
+        names = {ctx.size_keys[a][2] for a in szatoms}
+        idxs = [i for i, p in enumerate(f.params) if p["n"] in names]
+        via = []
+        for (caller, cn, args) in sites:
+            if cn is None:
+                return (False, "")
+            for i in idxs:
+                if i >= len(args):
+                    return (False, "")
+                a0 = args[i].strip_all()
+                from_this = a0.k == "UnaryOperator" and a0.op == "*" and a0.c and a0.c[0].strip_all().k == "CXXThisExpr"
+                from_parm = a0.k == "DeclRefExpr" and a0.decl and a0.decl.get("k") == "parm"
+                cls_public = caller.cls and "/include/" in ((prog.classes.get(caller.cls) or {}).get("file") or "")
+                if from_this and cls_public:
+                    pass
+                elif from_parm and not _is_internal(caller) and not caller.get("lambda"):
+                    pass
+                else:
+                    return (False, "")
+                # any live fact at the call site that mentions the object's size makes the instance untrusted
+                caller.blocks
+                for fact in caller.facts_at(cn):
+                    if not fact.belief and any(y.k == "CXXMemberCallExpr" and (y.callee or {}).get("qn", "").endswith("size") for y in fact.cond.walk()):
+                        return (False, "")
+            via.append(caller.short)
+        return (True, "; the container arrives unchecked from %s" % ", ".join(sorted(set(via))[:3]))
     if szatoms or len(patoms) != 1:
         return (not patoms and not szatoms, "")
     a = patoms[0]
@@ -1046,6 +1080,24 @@ def _eval_cond(ctx, n, env, depth=0):
     return None
 
 
+def _is_finished_counted_loop(ctx, cond):
+    p = cond.parent
+    while p is not None and p.k not in ("ForStmt",):
+        if p.k not in ("ImplicitCastExpr", "ParenExpr"):
+            return False
+        p = p.parent
+    if p is None or p.role("cond") is None:
+        return False
+    c = p.role("cond")
+    if not any(y.id == cond.id for y in c.walk()):
+        return False
+    saved = ctx.loopvars
+    ok = _counted_loop(ctx, p) is not None
+    ctx.loopvars = saved
+    # the body must not leave the loop early with something still to be said about the instance (break is fine: same exit)
+    return ok
+
+
 def _witness(ctx, cons, goal, e, size, relevant, nonlinear=()):
     """small integer values of the base atoms under which all constraints hold and the goal fails"""
     base = sorted(a for a in relevant if a not in ctx.divs)
@@ -1090,6 +1142,8 @@ def _witness(ctx, cons, goal, e, size, relevant, nonlinear=()):
             good = True
             for fact in nonlinear:
                 r = _eval_cond(ctx, fact.cond, env)
+                if r is None and not fact.pol and _is_finished_counted_loop(ctx, fact.cond):
+                    continue            # "the counted loop in front has run to its end": true of every instance
                 if r is None or bool(r) != bool(fact.pol):
                     good = False        # the instance does not pass this check, or the check cannot be evaluated
                     break
